@@ -237,14 +237,14 @@ struct Job {
 fn jobs_for(prop: &str, thorough: bool) -> Vec<Job> {
     let mut jobs = jobs_for_inner(prop, thorough);
     let cache_family = !matches!(prop, "C08" | "C09" | "C18");
-    if matches!(prop, "C01" | "C02" | "C04" | "C05" | "C06" | "C07" | "C11" | "C12" | "C14" | "C15" | "C17" | "C19") {
-        jobs.push(Job { engine: "variants", build: "", asan: false, workers: 16, cases: if thorough { 2000 } else { 400 }, timeout_s: 3600 });
+    if matches!(prop, "C01" | "C02" | "C04" | "C05" | "C06" | "C07" | "C11" | "C12" | "C13" | "C14" | "C15" | "C17" | "C19") {
+        jobs.push(Job { engine: "variants", build: "", asan: false, workers: 16, cases: if thorough { 6000 } else { 400 }, timeout_s: 3600 });
         if matches!(prop, "C06" | "C07" | "C12" | "C17") {
             jobs.push(Job { engine: "variants", build: "", asan: true, workers: 16, cases: if thorough { 1000 } else { 100 }, timeout_s: 3600 });
         }
     }
     if matches!(prop, "C02" | "C04" | "C05" | "C06" | "C07" | "C10" | "C13" | "C15" | "C20") {
-        jobs.push(Job { engine: "dense", build: "", asan: false, workers: 16, cases: if thorough { 3000 } else { 300 }, timeout_s: 3600 });
+        jobs.push(Job { engine: "dense", build: "", asan: false, workers: 16, cases: if thorough { 10000 } else { 300 }, timeout_s: 3600 });
     }
     if matches!(prop, "C02" | "C04" | "C05" | "C06" | "C07" | "C10" | "C13" | "C15" | "C20") {
         jobs.push(Job { engine: "geometry", build: "", asan: false, workers: 16, cases: 0, timeout_s: 1800 });
@@ -255,7 +255,7 @@ fn jobs_for(prop: &str, thorough: bool) -> Vec<Job> {
     if cache_family {
         jobs.insert(0, Job { engine: "corpus", build: "", asan: false, workers: 1, cases: 0, timeout_s: 600 });
         if thorough {
-            jobs.push(Job { engine: "fuzz_cache", build: "fuzz", asan: true, workers: 16, cases: 8_000, timeout_s: 2400 });
+            jobs.push(Job { engine: "fuzz_cache", build: "fuzz", asan: true, workers: 16, cases: 20_000, timeout_s: 2400 });
         }
     }
     else if thorough && prop != "C18" {
@@ -269,15 +269,15 @@ fn jobs_for_inner(prop: &str, thorough: bool) -> Vec<Job> {
     let cache = |asan: bool, q: u32, th: u32| Job { engine: "cache", build: "", asan, workers: 16, cases: if t { th } else { q }, timeout_s: if t { 5400 } else { 900 } };
     match prop {
         "C01" | "C02" | "C03" | "C04" | "C05" | "C10" | "C11" | "C13" | "C15" | "C20" =>
-            vec![cache(false, 4000, 8000)],
+            vec![cache(false, 4000, 25000)],
         "C19" => vec![
-            cache(false, 4000, 8000),
+            cache(false, 4000, 25000),
             // ThreadSanitizer first: a write through &self is reported there before it can make a reader loop
             Job { engine: "shared", build: "tsan", asan: false, workers: 16, cases: if t { 1500 } else { 100 }, timeout_s: if t { 3600 } else { 900 } },
             Job { engine: "shared", build: "", asan: false, workers: 16, cases: if t { 1500 } else { 150 }, timeout_s: if t { 3600 } else { 600 } },
         ],
         "C06" | "C07" | "C14" =>
-            vec![cache(false, 4000, 8000), cache(true, 600, 2000)],
+            vec![cache(false, 4000, 25000), cache(true, 600, 5000)],
         "C12" => vec![
             Job { engine: "walks", build: "", asan: false, workers: 16, cases: 0, timeout_s: 1800 },
             cache(false, 300, 3000),
